@@ -4,7 +4,7 @@ from typing import List, Optional
 from glom import glom, T, S, Spec, Val, PathAccessError, Path
 import glom.core as gc
 
-from vkit.common import start, reach, fail, known_open
+from vkit.common import start, reach, fail, known_open, concretize
 from vkit.ob import Ob
 import vkit.stubs  # noqa: F401
 
@@ -83,15 +83,6 @@ def _chain(codes, args, x):
     if got == cur:
         return True
     return fail(why='value differs', got=got, expected=cur, codes=codes, args=args, x=x)
-
-
-def concretize(v, lo, hi):
-    """finite-domain (D) variable: make the solver pick the value by comparisons, then use the
-    concrete int (floats and bitwise operators are outside the engine's symbolic arithmetic)"""
-    for c in range(lo, hi + 1):
-        if v == c:
-            return c
-    return None
 
 
 def truediv1(x: int, a0: int) -> bool:
